@@ -5,6 +5,9 @@ V = os.path.dirname(os.path.dirname(os.path.abspath(__file__)))
 
 # id -> (category, technique, text, note, design_ref)
 CHECKS = {
+ "C18": ("exploration", "runtime monitor: the real macro implementation executed as a library on generated declarations with the generated code interpreted against the declaration table; compiled batches executed against their tables; broken declarations must fail in the macro or in rustc",
+         "Library stage: hundreds (quick) / tens of thousands (thorough) of random well-formed declarations are expanded by both front-ends (identical token streams required, panics caught) and every match arm of the generated impls is checked against the declaration table. Compiled stage: a batch of 12/48 declarations is emitted as real macro invocations, compiled by cargo against /repo and executed: data type, path, constructor and accessor matrices, get_id, raw tags, Void/Crc32 for every declared and undeclared probe id, then writer/reader round trip and hostile-bytes parses under catch_unwind. Reject stage: 17 classes of broken declarations (minimal and embedded) must be rejected by the macro or fail to compile.",
+         "the token-stream interpreter is validated by the compiled stage of the same run; only the rejection classes named in the property are demanded", "DESIGN.md §5 C18"),
  "C03": ("exploration", "runtime monitor: trace oracle over (item, offset) sequences of the real iterator checked against the input bytes with an independent reference decoder",
          "For valid, truncated, mutated, adversarial, random and mid-document inputs under random configurations and short-read sources, every Ok item before the first error is checked against the bytes at its reported offset: id, documented value decoding, tiling of successive elements, End/Full offsets (implied ancestors at 0), with buffered parses aligned against an unbuffered parse of the same bytes.",
          "a 0x00 byte where an id should start is a don't-care (reported as raw id 0 when unknown ids are tolerated); items after the first error are not judged", "DESIGN.md §5 C03"),
